@@ -67,7 +67,7 @@ pub(crate) fn c15_fe_decode_encode_canonical() {
 
 /// equality of field elements is equality of VALUES: decodings of two byte strings are == exactly when their canonical values agree
 #[cfg_attr(kani, kani::proof)]
-#[cfg_attr(kani, kani::unwind(34))]
+#[cfg_attr(kani, kani::unwind(42))]
 pub(crate) fn c15_fe_eq_is_value_equality() {
     let a: [u8; 32] = any();
     let b: [u8; 32] = any();
@@ -76,4 +76,52 @@ pub(crate) fn c15_fe_eq_is_value_equality() {
     vcover!(same && a[0] != b[0], "two encodings of the same value");
     vcover!(!same, "different values");
     vassert!((Fe::from_bytes(&a) == Fe::from_bytes(&b)) == same, "Fe == Fe exactly when the values are equal (mod 2^255-19)");
+}
+
+/// specification: (x + y) mod p for canonical x, y (both < p), as four little-endian words
+fn spec_add_mod_p(x: &[u64; 4], y: &[u64; 4]) -> [u64; 4] {
+    let (s0, c0) = x[0].overflowing_add(y[0]);
+    let (t1, c1a) = x[1].overflowing_add(y[1]);
+    let (s1, c1b) = t1.overflowing_add(c0 as u64);
+    let (t2, c2a) = x[2].overflowing_add(y[2]);
+    let (s2, c2b) = t2.overflowing_add((c1a | c1b) as u64);
+    let s3 = x[3] + y[3] + ((c2a | c2b) as u64); // < 2^64: both operands < 2^63
+    let s = [s0, s1, s2, s3];
+    if ge_p(&s) {
+        // s - p, s < 2p: subtract word-wise
+        let (d0, b0) = s[0].overflowing_sub(P[0]);
+        let (e1, b1a) = s[1].overflowing_sub(P[1]);
+        let (d1, b1b) = e1.overflowing_sub(b0 as u64);
+        let (e2, b2a) = s[2].overflowing_sub(P[2]);
+        let (d2, b2b) = e2.overflowing_sub((b1a | b1b) as u64);
+        let d3 = s[3].wrapping_sub(P[3]).wrapping_sub((b2a | b2b) as u64);
+        [d0, d1, d2, d3]
+    } else {
+        s
+    }
+}
+fn to_le(w: &[u64; 4]) -> [u8; 32] {
+    let mut b = [0u8; 32];
+    let mut i = 0;
+    while i < 32 {
+        b[i] = (w[i >> 3] >> (8 * (i & 7))) as u8;
+        i += 1;
+    }
+    b
+}
+
+/// == is value equality also for elements produced by arithmetic (an unreduced sum against the decoding of its canonical bytes),
+/// and the sum encodes to (x + y) mod p
+#[cfg_attr(kani, kani::proof)]
+#[cfg_attr(kani, kani::unwind(42))]
+pub(crate) fn c15_fe_add_then_eq_and_encode() {
+    let a: [u8; 32] = any();
+    let b: [u8; 32] = any();
+    let (x, y) = (Fe::from_bytes(&a), Fe::from_bytes(&b));
+    let s = &x + &y;
+    let want = spec_add_mod_p(&spec_canonical(&a), &spec_canonical(&b));
+    let got = words(&s.to_bytes());
+    vassert!(got[0] == want[0] && got[1] == want[1] && got[2] == want[2] && got[3] == want[3], "to_bytes(x + y) == (x + y) mod (2^255-19)");
+    let c = Fe::from_bytes(&to_le(&want));
+    vassert!(s == c, "x + y == decode(encode(x + y)): equality is equality of values, not of limb vectors");
 }
